@@ -361,6 +361,38 @@ func buildAliases(w *World) *aliasSet {
 			as.Log = append(as.Log, fmt.Sprintf("func %s.%s.%s is now %s", ms[i].Pkg, ms[i].Recv, ms[i].Name, ns[i].Name))
 		}
 	}
+	// second pass for functions that were renamed AND edited a little: same receiver and signature, same multiset of
+	// external callees; accepted only when the match is unique in both directions
+	loose := func(f fpFunc, recv string) string {
+		ext := append([]string{}, f.Ext...)
+		sort.Strings(ext)
+		return fmt.Sprintf("%s|%s|%v|%s|%s", f.Pkg, recv, f.Ptr, f.Sig, strings.Join(ext, ","))
+	}
+	missL := map[string][]fpFunc{}
+	newL := map[string][]fpFunc{}
+	for k, f := range refFuncs {
+		if _, ok := curFuncs[k]; !ok && loaded[f.Pkg] {
+			if _, done := as.funcFwd[f.Pkg+"|"+f.Recv+"|"+f.Name]; !done {
+				missL[loose(f, f.Recv)] = append(missL[loose(f, f.Recv)], f)
+			}
+		}
+	}
+	for k, f := range curFuncs {
+		if _, ok := refFuncs[k]; !ok {
+			rr := refRecvOf(f.Pkg, f.Recv)
+			if _, done := as.funcRev[f.Pkg+"|"+rr+"|"+f.Name]; !done {
+				newL[loose(f, rr)] = append(newL[loose(f, rr)], f)
+			}
+		}
+	}
+	for sh, ms := range missL {
+		ns := newL[sh]
+		if len(ms) == 1 && len(ns) == 1 {
+			as.funcFwd[ms[0].Pkg+"|"+ms[0].Recv+"|"+ms[0].Name] = ns[0].Name
+			as.funcRev[ns[0].Pkg+"|"+ms[0].Recv+"|"+ns[0].Name] = ms[0].Name
+			as.Log = append(as.Log, fmt.Sprintf("func %s.%s.%s is now %s (body edited)", ms[0].Pkg, ms[0].Recv, ms[0].Name, ns[0].Name))
+		}
+	}
 	sort.Strings(as.Log)
 	return as
 }
